@@ -3,7 +3,8 @@
    what dominates the time of evaluating a case. hex is injective on byte lists (hex_inj, in
    Proofs/BroadcastMem.v), so nothing is lost. Definitions only. *)
 From Coq Require Import String Ascii.
-Require Import V.Base.MachineInt V.Model.Broadcast.
+Require Import V.Base.MachineInt.
+Require Import V.Model.Broadcast.
 Open Scope Z_scope.
 
 Definition hexd (n : Z) : ascii :=
